@@ -490,7 +490,8 @@ def _error_kind(w):
 def scenario_c12(scn):
     """scn: {id, how: 'terminate'|'sigterm'|'tshort' (terminate(timeout=0.3, force=True)), kids: [{state, persistent}], racer: None|{step, delay}, streams, pos, logdir}
     kid states: coop / swallow (target running), idle (persistent, no input), finished, inctx (idle in a
-    context), inctx-coop / inctx-swallow (running the context's target), starting (scripted client in the
+    context), inctx-coop / inctx-swallow (running the context's target), swallow-gone / coop-gone (persistent
+    worker busy in its target whose CLIENT PROCESS has been SIGKILLed), starting (scripted client in the
     middle of the handshake when the stop arrives; no parent-side object)."""
     import uuid
     from pyworkers.remote import RemoteWorker
@@ -502,6 +503,7 @@ def scenario_c12(scn):
     kids = scn['kids']
     objs = [None] * len(kids)
     markers = []
+    clients, gone_pids = [], {}
     notes = {'setup': [], 'stop': '', 'left_pids': [], 'server_error': ''}
     obs = {'srv_dead': 'F', 'left': -1, 'kids': []}
     raw = None
@@ -546,7 +548,21 @@ def scenario_c12(scn):
                 fn = {'inctx': tg.ident, 'inctx-coop': tg.coop_marked, 'inctx-swallow': tg.swallow_marked}[st]
                 ctxs[st] = RemoteContext(C12_CTX + j, host=srv.addr, target=fn)
             for i, k in enumerate(kids):
-                if k['state'] == 'orphan':          # a refused duplicate registration leaves its helper process behind
+                if k['state'] in ('swallow-gone', 'coop-gone'):
+                    # the worker belongs to ANOTHER client process, which is killed before the stop
+                    import subprocess
+                    marker = os.path.join(scn['logdir'], 'mark-%s-%d' % (tagv, i))
+                    env = dict(os.environ)
+                    env.pop('VF_SCN', None)
+                    p = subprocess.Popen([sys.executable, '-m', 'vf.drivers._server_client', srv.addr[0], str(srv.addr[1]),
+                                          k['state'].split('-')[0], marker], cwd=L.VERIF, env=env, stdout=subprocess.PIPE, stderr=subprocess.DEVNULL)
+                    clients.append(p)
+                    line = L.bounded(p.stdout.readline, 2 * HANG)
+                    if line[0] != 'ok' or not line[1].startswith(b'BACKEND '):
+                        raise MachineryError('C12 set-up: the client process did not create its worker: %r' % (line,))
+                    gone_pids[i] = int(line[1].split()[1])
+                    markers.append(marker)
+                elif k['state'] == 'orphan':          # a refused duplicate registration leaves its helper process behind
                     cid = 50 + i
                     RemoteContext(cid, host=srv.addr, target=tg.ident)
                     try:
@@ -565,7 +581,13 @@ def scenario_c12(scn):
         r = L.bounded(setup, 40)
         if r[0] != 'ok':
             raise MachineryError('C12 set-up failed: %r' % (r,))
-        pids = [getattr(o, 'pid', None) if o is not None else None for o in objs]
+        pids = [getattr(o, 'pid', None) if o is not None else gone_pids.get(i) for i, o in enumerate(objs)]
+        for p in clients:                         # the client crashes: SIGKILL; its sockets are reset by the kernel
+            p.kill()
+        for p in clients:
+            p.wait(HANG)
+        if clients:
+            time.sleep(0.2)
         before = [p for p in L.tagged_pids(tagv) if p != srv.pid]
 
         # a worker in the middle of its start-up: scripted client (no parent-side object)
@@ -634,6 +656,12 @@ def scenario_c12(scn):
                                 'error': re_[1] if re_[0] == 'ok' else L.tag(re_), 'blocked': 'T' if blocked else 'F'})
         notes['server_error'] = srv.last_error()
     finally:
+        for p in clients:
+            try:
+                p.kill()
+                p.wait(2)
+            except Exception:  # noqa
+                pass
         if raw is not None:
             raw.vanish('rst')
         L.kill_pids([p for p in L.tagged_pids(tagv)])
@@ -641,5 +669,5 @@ def scenario_c12(scn):
     return {'id': scn['id'], 'prop': 'C12',
             'scn': {'how': scn['how'], 'racer': scn.get('racer') or 'none',
                     'kids': [{'state': k['state'], 'persistent': 'T' if k['persistent'] else 'F',
-                              'parent': 'F' if k['state'] in ('starting', 'orphan') else 'T'} for k in kids]},
+                              'parent': 'F' if k['state'] in ('starting', 'orphan', 'swallow-gone', 'coop-gone') else 'T'} for k in kids]},
             'obs': obs, 'notes': notes}
